@@ -518,9 +518,9 @@ def gen_op(rng, M):
     if r < 0.21:
         return ('new_identity', T([C(b'bare'), C(gen.rand_bytes(rng, 2))]))
     if r < 0.36:
-        kid = rng.choice([None, None, None, b'k1', b'k2', 'k3'])
+        kid = rng.choice([None, None, None, b'k1', b'k2', 'k3', '', b''])      # an empty key id is no key id (a random one is drawn)
         via = 'obj' if kid is None and rng.random() < 0.3 else 'kc'
-        return ('new_key', rng.choice(list(M.ids)), rng.choice(['ec', 'ec', 'ec', 'rsa']), kid, via)
+        return ('new_key', rng.choice(list(M.ids)), rng.choice(['ec', 'ec', 'ec', 'rsa', 'ec384', 'ec521']), kid, via)
     if r < 0.46 and alive:
         idn, k = rng.choice(alive)
         issuer = rng.choice(alive)
@@ -578,6 +578,14 @@ def apply_op(S, M, op, rng, ctx):
     elif kind == 'new_key':
         idn, typ, kid, via = op[1], op[2], op[3], op[4]
         kw = {'key_size': 1024} if typ == 'rsa' else {}
+        if typ in ('ec384', 'ec521'):
+            kw = {'key_size': int(typ[2:])}         # larger curves (the signature algorithm stays SHA-256 with ECDSA)
+            typ = 'ec'
+            ctx.event('new-key-on-a-larger-curve')
+        if kid in ('', b''):
+            kw['key_id'] = kid
+            kid = None
+            ctx.event('new-key-with-empty-key-id')
         if kid is not None:
             kw['key_id'] = rc.comp(8, kid) if isinstance(kid, bytes) else kid
             kname = idn + (C(b'KEY'), C(kid if isinstance(kid, bytes) else kid.encode()))
@@ -964,7 +972,7 @@ def run(ctx):
     for i in range(n):
         run_history(ctx, rng, rng.randint(5, 40), faults=(i % 3 == 2))
     need = ['invariant-scan', 'signer-judged', 'operation-repeated', 'crash-reopen', 'op-del_key', 'op-del_identity', 'op-reopen',
-            'op-import_cert', 'signer-deleted-key-refused', 'set-default-with-nonmember-name', 'signer-probe-around-default-change', 'several-stores-history', 'foreign-store-signer-refused']
+            'op-import_cert', 'signer-deleted-key-refused', 'new-key-with-empty-key-id', 'new-key-on-a-larger-curve', 'set-default-with-nonmember-name', 'signer-probe-around-default-change', 'several-stores-history', 'foreign-store-signer-refused']
     if ctx.shard == 0:
         need.append('fault-sweep-point')
     for k in need:
